@@ -25,3 +25,10 @@ pub mod systematic;
 
 mod linalg;
 mod util;
+
+/// Verification hooks: items of private modules re-exported for conformance
+/// harnesses. Only present when built with `--cfg ldpc_toolbox_verif`.
+#[cfg(ldpc_toolbox_verif)]
+pub mod verif_hooks {
+    pub use crate::util::{SortedRandomSel, compare_some};
+}
